@@ -123,6 +123,8 @@ type ReqSpec struct {
 	// body arrives in pieces with gaps
 	BodyChunks [][]byte
 	BodyGap    time.Duration
+	// BodyFailAfter > 0: the body reader fails (client went away) after that many chunks
+	BodyFailAfter int
 }
 
 var discardLogger = slog.New(slog.NewTextHandler(io.Discard, &slog.HandlerOptions{Level: slog.LevelError + 10}))
@@ -491,16 +493,20 @@ func (rw *respWriter) Hijack() (net.Conn, *bufio.ReadWriter, error) {
 }
 
 type chunkedBody struct {
-	chunks [][]byte
-	gap    time.Duration
-	i      int
-	cur    []byte
-	w      *World
-	LastAt time.Duration
+	chunks    [][]byte
+	gap       time.Duration
+	i         int
+	cur       []byte
+	w         *World
+	LastAt    time.Duration
+	failAfter int
 }
 
 func (b *chunkedBody) Read(p []byte) (int, error) {
 	if len(b.cur) == 0 {
+		if b.failAfter > 0 && b.i >= b.failAfter {
+			return 0, io.ErrUnexpectedEOF
+		}
 		if b.i >= len(b.chunks) {
 			return 0, io.EOF
 		}
@@ -559,7 +565,7 @@ func (w *World) buildRequest(spec ReqSpec) (*http.Request, error) {
 		} else {
 			fmt.Fprintf(&raw, "Content-Length: %d\r\n\r\n", total)
 		}
-		body = &chunkedBody{chunks: spec.BodyChunks, gap: spec.BodyGap, w: w}
+		body = &chunkedBody{chunks: spec.BodyChunks, gap: spec.BodyGap, w: w, failAfter: spec.BodyFailAfter}
 	} else if spec.Body != nil {
 		if spec.Chunked {
 			raw.WriteString("Transfer-Encoding: chunked\r\n\r\n")
